@@ -51,8 +51,12 @@ def convertUFO1OrUFO2KerningToUFO3Kerning(
     # Create new names for these groups.
     firstRenamedGroups: dict[str, str] = {}
     for first in sorted(firstReferencedGroups):
-        # Make a list of existing group names.
-        existingGroupNames = list(groups.keys()) + list(firstRenamedGroups.values())
+        # Make a list of existing group names, and of the names already used
+        # on this side of the kerning pairs (a renamed group must not take the
+        # place of an existing kerning entry).
+        existingGroupNames = (
+            list(groups.keys()) + list(kerning.keys()) + list(firstRenamedGroups.values())
+        )
         # Remove the old prefix from the name
         newName = first.replace("@MMK_L_", "")
         # Add the new prefix to the name.
@@ -63,8 +67,13 @@ def convertUFO1OrUFO2KerningToUFO3Kerning(
         firstRenamedGroups[first] = newName
     secondRenamedGroups: dict[str, str] = {}
     for second in sorted(secondReferencedGroups):
-        # Make a list of existing group names.
-        existingGroupNames = list(groups.keys()) + list(secondRenamedGroups.values())
+        # Make a list of existing group names, and of the names already used
+        # on this side of the kerning pairs.
+        existingGroupNames = (
+            list(groups.keys())
+            + [second for seconds in kerning.values() for second in seconds]
+            + list(secondRenamedGroups.values())
+        )
         # Remove the old prefix from the name
         newName = second.replace("@MMK_R_", "")
         # Add the new prefix to the name.
